@@ -409,8 +409,8 @@ func runC06(outDir string, seed int64, tier string) {
 		sum.CaseFiles = append(sum.CaseFiles, name)
 	}
 	sum.Rule = "terms of depth 1-3 built without the reader (atom_codes, =.., Go floats): atoms of every lexical class (alphanumeric, solo, graphic, quoted with escapes and control characters, empty, non-ASCII incl. symbols and a 4-byte character, operator names), integers incl. both 64-bit extremes and random 64-bit values, finite floats incl. zeros, subnormals, the largest float and random bit patterns, variables with sharing, compounds whose functor is any of those atoms, operator terms of arity 1 and 2 over built-in and user operators, negative numbers as operands and under ^ and -, lists and partial lists as native cells and as '.'/2, curly terms, '{}'/2, '[]'/1, '.'/1; operator tables after 0-6 random op/3 calls (prefix+infix for one name, postfix, redefinitions, removals); double_quotes in codes/chars/atom; written by writeq, write_canonical, write_term quoted with and without ignore_ops; read back by read_term and compared structurally (floats bit for bit, variables up to renaming); number_codes/number_chars on the same numbers; atoms of 0-6 characters over a pool of 37 (letters, digits, quote, backslash, double and back quote, control characters, layout, solo and graphic characters, accepted and unaccepted non-ASCII incl. combining, private-use and the last code point) written by writeq, compared with the model's quote and read back on both sides; distinct by table + term + writer"
-	header := "From Coq Require Import ZArith List String.\nFrom PV Require Import Model.Term Model.Canon.\nImport ListNotations.\nOpen Scope Z_scope.\nOpen Scope string_scope.\n"
-	writeCases(filepath.Join(outDir, "cases_canon.v"), header, "ccase", "check_canon", cases)
+	header := "From Coq Require Import ZArith List String.\nFrom PV Require Import Model.Term Model.Canon Model.CanonLex.\nImport ListNotations.\nOpen Scope Z_scope.\nOpen Scope string_scope.\n"
+	writeCases(filepath.Join(outDir, "cases_canon.v"), header, "ccase", "check_canon_text", cases)
 	sum.CaseFiles = append(sum.CaseFiles, "cases_canon.v")
 	sum.write(outDir, start)
 }
